@@ -49,6 +49,34 @@ def handle (inp out : String) : String :=
             | .error e => s!"diff s:{label}:S0 result-unparsable-{e}"
           | none => s!"diff s:{label}:{st} model=S0"
     | _, _, _, _, _ => "skip bad-args"
+  | "as" :: hashHex :: level :: keyHex :: replyHex :: rest =>
+    let label := rest.headD "-"
+    let ows := words out
+    let g := (ows.find? (·.startsWith "G")).getD "G-"
+    match ofHex hashHex, level.toNat?, ofHex keyHex, ofHex replyHex with
+    | some hash, some lv, some key, some reply =>
+      let resHex := (ows.find? (·.startsWith "R")).map fun w => (w.drop 1).toString
+      let viol : Option String :=
+        if ows.contains "RESULT-WITH-ERROR" then some "a-signature-was-returned-together-with-an-error"
+        else if label != "ok" && g == "G0" then some s!"asynchronous-service-signed-although-{label}"
+        else if label == "ok" && g != "G0" then some s!"asynchronous-service-refused-the-honest-reply-{g}"
+        else match resHex.bind ofHex with
+          | some res => resultSpec hash lv res
+          | none => none
+      match viol with
+      | some why => s!"specfail as:{label} {why}"
+      | none =>
+        -- the blocking model decides whether a signature comes out (the asynchronous service reports errors in its own way)
+        match signAggregated Hreal cfg hash lv 1 2 none key reply with
+        | .error _ => if g == "G0" then s!"diff as:{label}:{g} model=refused" else s!"ok as:{label}:{g}"
+        | .ok s =>
+          match resHex.bind ofHex with
+          | some res =>
+            match parseSignature cfg res with
+            | .ok vs => if sigStr (Sig.ofVals cfg.tabs vs) == sigStr s then s!"ok as:{label}:G0" else s!"diff as:{label}:G0 model-signature-differs"
+            | .error e => s!"diff as:{label}:G0 result-unparsable-{e}"
+          | none => s!"diff as:{label}:{g} model=G0"
+    | _, _, _, _ => "skip bad-args"
   | "q" :: hashHex :: level :: ver :: loginHex :: _key :: rest =>
     let label := rest.headD "-"
     let ows := words out
